@@ -169,6 +169,13 @@ def handle (args : List String) (impl : String) : String × String :=
       | _ => (toHex (Pow.pow bits a e), toHex sp.1)
     | "log" | "clog" => handleLog op bits a e impl
     | "root" => handleRoot bits a e impl
+    -- L1 operations used by the loop bodies: model = the value-level function the L2 models call
+    | "l1mul" =>
+      let r := omul m a e
+      (toHex r.1 ++ " " ++ boolStr r.2, toHex (a * e % m) ++ " " ++ boolStr (decide (m ≤ a * e)))
+    | "l1wmul" => (toHex ((a * e) % m), toHex (a * e % m))
+    | "l1wadd" => (toHex ((a + e) % m), toHex ((a + e) % m))
+    | "l1div" => if e = 0 then ("panic", "any") else (toHex (a / e), toHex (a / e))
     | _ => ("bad-op", "bad-op")
   | [op, bs, as] =>
     let bits := parseDec bs
@@ -176,6 +183,13 @@ def handle (args : List String) (impl : String) : String × String :=
     match op with
     | "log2" | "clog2" => handleLog op bits x 2 impl
     | "log10" | "clog10" => handleLog op bits x 10 impl
+    | "l1sshl1" => (toHex (sshl1 bits x), toHex (min (2 * x) (2 ^ bits - 1)))
+    | "l1cadd1" =>
+      -- `checked_add(Self::ONE)`; `ONE` is `0` at `BITS = 0`
+      let one := if bits = 0 then 0 else 1
+      ((if x + one < 2 ^ bits then "some " ++ toHex (x + one) else "none"),
+       (if x + one ≥ 2 ^ bits then "none" else "some " ++ toHex (x + one)))
+    | "l1bitlen" => (toHex (bitLen x), toHex (if x = 0 then 0 else Nat.log2 x + 1))
     | "alog2" => ("skip", judgeAlog2 x impl)
     | "apow2" =>
       -- `impl` = `<result> <class>`; the class (float pre-processing) is an input of the integer model
